@@ -232,3 +232,14 @@ MUTANTS += [
  {"id": "c18-index-latex", "prop": "C18", "file": "adcgen/indices.py", "old": "            spin = \"alpha\" if spin == \"a\" else \"beta\"", "new": "            spin = \"alpha\""},
  {"id": "c18-sign", "prop": "C18", "file": _FU, "old": "        sympy_term = -1 if sign == '-' else +1", "new": "        sympy_term = +1"},
 ]
+_GC = "adcgen/generate_code/generate_code.py"
+MUTANTS += [
+ {"id": "c17-einsum-holes", "prop": "C17", "file": _GC, "old": "        contr_str = f\"\\\"{','.join(indices)}->{target}\\\"\"", "new": "        contr_str = f\"\\\"{','.join(indices[::-1])}->{target}\\\"\""},
+ {"id": "c17-einsum-bare", "prop": "C17", "file": _GC, "old": "    if len(tensors) == 1 and indices[0] == target:", "new": "    if len(tensors) == 1:"},
+ {"id": "c17-libtensor-dot", "prop": "C17", "file": _GC, "old": "        elif contracted and not target:  # inner product\n            components.append(f\"dot_product({', '.join(tensors)})\")", "new": "        elif contracted and not target:  # inner product\n            components.extend(tensors)"},
+ {"id": "c17-perm-sign", "prop": "C17", "file": _GC, "old": "        contrib = [\"+ \"] if factor == 1 else [\"- \"]", "new": "        contrib = [\"+ \"] if factor == -1 else [\"- \"]"},
+ {"id": "c17-prefactor-sign", "prop": "C17", "file": _GC, "old": "    if number_pref < 0:\n        sign = \"-\"\n        number_pref *= -1", "new": "    if number_pref < 0:\n        sign = \"-\""},
+ {"id": "c17-target-string", "prop": "C17", "file": _GC, "old": "    target = \"\".join(idx.name for idx in contraction.target)", "new": "    target = \"\".join(idx.name for idx in sorted(contraction.target, key=lambda s: s.name))"},
+ {"id": "c17-quarter", "prop": "C17", "file": _GC, "old": "    elif prefactor in [Rational(1, 2), Rational(1, 4)]:  # simple Rational\n        return str(float(prefactor))", "new": "    elif prefactor in [Rational(1, 2), Rational(1, 4)]:  # simple Rational\n        return str(float(prefactor * 2))"},
+ {"id": "c17-adcc-name", "prop": "C17", "file": _GC, "old": "    elif name.startswith(tensor_names.fock):\n        space = \"\".join(s.space[0] for s in indices)\n        return f\"hf.f{space}\"", "new": "    elif name.startswith(tensor_names.fock):\n        space = \"\".join(s.space[0] for s in indices[::-1])\n        return f\"hf.f{space}\""},
+]
